@@ -128,7 +128,7 @@ fn run_batch(engine: &dyn Engine, seed: u64, runs: u64, thorough: bool, threads:
                     }
                 }
                 let case_seed = mix(seed, i);
-                let case = engine.gen(case_seed, thorough);
+                let case = engine.gen_indexed(i, case_seed, thorough);
                 let plan = plan_for(case_seed);
                 let out = exec::guarded(engine.property(), || engine.run(&case, &plan));
                 let mut a = agg.lock().unwrap();
@@ -463,7 +463,7 @@ fn cmd_digest(args: &[String]) -> i32 {
                     break;
                 }
                 let case_seed = mix(seed, i);
-                let case = engine.gen(case_seed, false);
+                let case = engine.gen_indexed(i, case_seed, false);
                 let out = exec::guarded(engine.property(), || engine.run(&case, &plan_for(case_seed)));
                 let line = format!(
                     "{i} {} steps={} ilv={:?}",
